@@ -49,7 +49,7 @@ def bounds(tier, seed):
     return {'string_len': 4 if q else 5, 'string_len_seed_slice': 5 if q else None, 'bytes_len': 4 if q else 4,
             'directive_pieces': 3 if q else 4, 'tag_pieces': 4 if q else 5,
             'corpus_max_bytes': 400, 'corpus_edits': 1, 'corpus_files': 'index %% 8 == seed %% 8 in quick, all in thorough',
-            'nesting_max': 150}
+            'nesting_max': 150, 'flat_repetition': 'every unit of <= 2 symbols x 7 frames x %d repetitions' % REPEAT_N}
 
 
 def _declen(data):
@@ -101,14 +101,14 @@ def _alarm(signum, frame):
 CASE_SECONDS = 10.0
 
 
-def run_input(T, sub, case, data, via=None, backends=BACKENDS, apis=APIS):
+def run_input(T, sub, case, data, via=None, backends=BACKENDS, apis=APIS, seconds=None):
     """the real code is executed here: every API x back-end on one input, under a per-input time limit (a Python-level
     endless loop is interrupted by SIGALRM and reported at once; a hang inside C code is left to the engine watchdog)"""
     import signal
     nchars, nbytes = _declen(data)
     nontriv = 0
     signal.signal(signal.SIGALRM, _alarm)
-    signal.setitimer(signal.ITIMER_REAL, CASE_SECONDS)
+    signal.setitimer(signal.ITIMER_REAL, seconds or CASE_SECONDS)
     try:
         for be, Loader in backends:
             for an, api in apis:
@@ -122,7 +122,15 @@ def run_input(T, sub, case, data, via=None, backends=BACKENDS, apis=APIS):
                     nontriv = 1
                     check_error(T, sub, case, be, an, e, nchars, nbytes)
                 except RecursionError:
-                    T.count('recursion_out_of_scope')
+                    # out of scope only where the statement says so: the pure-Python composer on deeply nested input.
+                    # The scanner and the parser are iterative, and flat input (long runs of comment or blank lines,
+                    # many entries, many documents) has no business exhausting the stack anywhere.
+                    depth = _max_depth(data if via is None else data, Loader) if (be == 'py' and an == 'compose_all') else 0
+                    if depth >= 50:
+                        T.count('recursion_out_of_scope')
+                    else:
+                        T.violation(sub, 'non-yaml-exception:RecursionError', case,
+                                    detail='%s/%s raised RecursionError on input whose nesting depth is %d' % (be, an, depth))
                 except _Hang:
                     raise
                 except BaseException as e:        # anything else violates the property
@@ -130,7 +138,7 @@ def run_input(T, sub, case, data, via=None, backends=BACKENDS, apis=APIS):
                                 detail='%s/%s raised %s: %s' % (be, an, type(e).__name__, str(e)[:200]))
                     break
     except _Hang:
-        T.violation(sub, 'hang', case, detail='did not terminate within %.0f s' % CASE_SECONDS)
+        T.violation(sub, 'hang', case, detail='did not terminate within %.0f s' % (seconds or CASE_SECONDS))
         T.count('hangs')
         if T.counters['hangs'] >= 3:
             signal.setitimer(signal.ITIMER_REAL, 0)
@@ -138,6 +146,38 @@ def run_input(T, sub, case, data, via=None, backends=BACKENDS, apis=APIS):
     finally:
         signal.setitimer(signal.ITIMER_REAL, 0)
     T.nontrivial += nontriv
+
+
+def _max_depth(data, Loader):
+    """deepest collection nesting among the events the parser produces (up to its first error, if any)"""
+    d = m = 0
+    try:
+        for ev in yaml.parse(data, Loader=Loader):
+            if isinstance(ev, yaml.CollectionStartEvent):
+                d += 1
+                m = max(m, d)
+            elif isinstance(ev, yaml.CollectionEndEvent):
+                d -= 1
+    except (yaml.YAMLError, RecursionError):
+        pass
+    return m
+
+
+# flat repetition: every unit of <= 2 symbols, repeated beyond the interpreter recursion limit, in seven frames
+REPEAT_N = 1500
+REPEAT_FRAMES = [('rep', lambda u, n: u * n), ('lines', lambda u, n: (u + '\n') * n), ('seq', lambda u, n: '- a\n' + (u + '\n') * n + '- b\n'), ('flow', lambda u, n: '[a,' + (u + '\n') * n + 'b]'),
+                 ('dq', lambda u, n: '"' + u * n + '"'), ('val', lambda u, n: 'k: v\n' + (u + '\n') * n + 'j: w\n'), ('spaced', lambda u, n: (u + ' ') * n)]
+
+
+def repeat_units():
+    al = SIGMA + ['#c', '# c', '']
+    seen = set()
+    for a in al:
+        for b in [''] + al:
+            u = a + b
+            if u not in seen:
+                seen.add(u)
+                yield u
 
 
 def nest_family(i, n):
@@ -170,6 +210,7 @@ def plan(tier, seed):
     jobs += [('tag', tl, i) for i in range(len(TAG_PIECES))]
     jobs += [('nest', i) for i in range(NFAM)]
     jobs += [('longdigits',)]
+    jobs += [('repeat', k, 32) for k in range(32)]
     jobs += [('unidigits', k) for k in range(len(UNI_CHARS))]
     jobs += [('backtrack', k) for k in range(len(BACKTRACK_UNITS))]
     return jobs
@@ -305,6 +346,23 @@ def _run_job(job, T):
         finally:
             signal.signal(signal.SIGALRM, old)
         T.sample('backtracking', {'input': doc})
+    elif kind == 'repeat':
+        _, k, np_ = job
+        i = 0
+        c = None
+        for u in repeat_units():
+            for fn, fr in REPEAT_FRAMES:
+                i += 1
+                if i % np_ != k:
+                    continue
+                # a unit that opens a flow collection nests instead of repeating: the scanner keeps one candidate simple key
+                # per open flow level and looks at all of them for every token (slow, not endless), so those runs are shorter
+                n = REPEAT_N if not ('[' in u or '{' in u) else 300
+                doc = fr(u, n)
+                c = {'input': doc if len(doc) < 200 else None, 'unit': u, 'frame': fn, 'n': n}
+                if T.trace: T.begin(c)
+                run_input(T, 'repetition', c, doc, seconds=60.0)
+        T.sample('repetition', {'unit': c['unit'], 'frame': c['frame'], 'n': REPEAT_N})
     elif kind == 'nest':
         for n in (1, 2, 3, 10, 50, 100, 150):
             s = nest_family(job[1], n)
@@ -317,6 +375,9 @@ def _run_job(job, T):
 
 
 def replay(sub, case, T):
+    if sub == 'repetition' and case.get('input') is None:
+        doc = dict(REPEAT_FRAMES)[case['frame']](case['unit'], case['n'])
+        return run_input(T, sub, case, doc, seconds=60.0)
     run_input(T, sub, case, case['input'], via=case.get('via'))
 
 
